@@ -60,13 +60,18 @@ pub enum Step {
     /// fail with this error kind and message
     Err(std::io::ErrorKind, String),
 }
+/// numbers only (TLC cannot compare numbers with strings): n > 0 bytes available, 0 one Ok(0), -1 pause, -2 error
 pub fn sched_json(s: &[Step]) -> Value {
     Value::Array(s.iter().map(|x| match x {
-        Step::N(n) => json!(*n as i64),
+        Step::N(n) => json!((*n).min(1 << 30) as i64),
         Step::Zero => json!(0),
-        Step::Pause => json!("pause"),
-        Step::Err(k, m) => json!(format!("err:{:?}:{}", k, m)),
+        Step::Pause => json!(-1),
+        Step::Err(_, _) => json!(-2),
     }).collect())
+}
+/// the error steps of a schedule, in order: "Kind:message"
+pub fn sched_io_json(s: &[Step]) -> Value {
+    Value::Array(s.iter().filter_map(|x| if let Step::Err(k, m) = x { Some(json!(format!("{:?}:{}", k, m))) } else { None }).collect())
 }
 
 /// A `Read` whose every answer is scripted; after the script it delivers whatever fits.
@@ -182,7 +187,7 @@ pub fn state_json<R: Read, T: EbmlSpecification<T> + EbmlTag<T> + Clone>(it: &Ta
 pub fn run_reader<T: EbmlSpecification<T> + EbmlTag<T> + Clone>(
     out: &mut Out, tag: &str, input: &[u8], cfg: &ReaderCfg, sched: &[Step], calls: &Calls,
 ) -> Vec<Value> {
-    out.ev(json!({"ev":"run","tag":tag,"input":b(input),"cfg":cfg.json(),"sched":sched_json(sched)}));
+    out.ev(json!({"ev":"run","tag":tag,"input":b(input),"cfg":cfg.json(),"sched":sched_json(sched),"sched_io":sched_io_json(sched)}));
     let log: Rc<RefCell<Vec<(i64, usize, usize, usize)>>> = Rc::new(RefCell::new(Vec::new()));
     let src = ScriptedRead::new(Rc::new(input.to_vec()), sched.to_vec(), log.clone());
     let to_buffer: Vec<T> = cfg.buffer.iter().filter_map(|id| T::get_master_tag(*id, Master::Start)).collect();
